@@ -323,6 +323,29 @@ def run_convert(case: dict) -> CaseResult:
                 res.violations.append(V(f"c14:roundtrip:differs:{mcls.__name__}", f"{obj!r} -> {back!r}"))
         except Exception as e:  # noqa: BLE001
             res.violations.append(V(f"c14:roundtrip:raised:{mcls.__name__}:{type(e).__name__}", repr(e)))
+    # what a consumer does to the model it was handed (it fills in a dict, appends to a list) stays its own business:
+    # the same wire message converted again presents the wire content, not the consumer's additions
+    if not res.violations:
+        import copy
+
+        try:
+            snap = copy.deepcopy(obj)
+            touched = False
+            for f in dataclasses.fields(mcls):
+                v = getattr(obj, f.name)
+                if isinstance(v, dict):
+                    v["__added_by_the_consumer__"] = "x"
+                    touched = True
+                elif isinstance(v, list):
+                    v.append("__added_by_the_consumer__")
+                    touched = True
+            if touched:
+                classes.add("earlier_result_mutated")
+                again = mcls.from_pb(msg)
+                if not _same_model(again, snap):
+                    res.violations.append(V(f"c14:convert:depends-on-an-earlier-result:{mcls.__name__}", f"{name} {case['spec']}: converted again after the first result had been written to: {again!r}, wire content gives {snap!r}"))
+        except (TypeError, AttributeError, dataclasses.FrozenInstanceError):
+            pass  # immutable containers: nothing to write to
     res.nontrivial = msg.ByteSize() > 0
     res.classes = sorted(classes | {"convert"})
     res.info = {"msg": name, "bytes": msg.ByteSize()}
